@@ -19,7 +19,7 @@ func init() {
 			"1..3 clients strictly one operation at a time: Add (0..4 attributes, 1..3 values), Modify of user entries (add-value on new and existing attributes, delete-attribute, replace of an existing attribute, several " +
 			"changes per request - now and then none at all -, multi-valued), Add and Delete of 4 further DNs below the groups base (cn=h<a..d>,ou=groups,..., read back by a search based at the entry's own DN), values of 127..70000 bytes now and then, Delete (users and groups, present and missing), Search (people base with (cn=X); base = entry DN; groups base), SetUsers/SetGroups (model reset with fresh objects, or with entries built by the library's own NewUsers(WithMembersOf) helper, which shares one memberOf slice between all users), and searches with unusual parameters (typesOnly, limits, attribute lists) whose results are not asserted but which must not change the store. " +
 			"A reference model (DN -> attribute -> values) is stepped alongside; after every mutating step the affected entry and one other pool entry are searched and compared, and at the end of each history every pool DN. " +
-			"Values added through add-value modifications may read back plain or BER-wrapped (a well-formed octet string, judged by the harness's own parser); values set through Add, Set* and replace must read back plainly. The user pool has two DNs with a shared parenthesised remark, the group pool one DN outside the groups base; an attribute returned twice in one entry is a violation. distinct_nontrivial = distinct operation-kind sequences (histories) containing at least one mutation followed by a search",
+			"Values added through add-value modifications may read back plain or BER-wrapped (a well-formed octet string, judged by the harness's own parser); values set through Add, Set* and replace must read back plainly. The user pool has two DNs with a shared parenthesised remark and one written with a blank after its first comma, the group pool one DN outside the groups base; an attribute returned twice in one entry is a violation. distinct_nontrivial = distinct operation-kind sequences (histories) containing at least one mutation followed by a search",
 		Assume: []string{"not asserted (the statement is silent): modify of group entries, add of a DN that exists as a group, replace of a missing attribute, the result code of an empty search, attribute order within an entry"},
 		Phases: func(tier string, seed int64) []Phase {
 			return []Phase{{Name: "histories-plain", Run: func(c *Ctx) { c20Run(c, "plain") }}, {Name: "histories-tls", Run: func(c *Ctx) { c20Run(c, "tls") }}}
@@ -47,15 +47,21 @@ type c20Model struct {
 
 // c20NUsers: eight plain names and two with a parenthesised remark (legal in a DN; they share the remark, yet no DN is
 // a substring of another)
-const c20NUsers = 10
+// ... and one whose DN is written with a blank after the first comma (the directory keys its entries by the DN as written)
+const c20NUsers = 11
 
 func c20UserCN(i int) string {
-	if i >= 8 {
+	if i >= 8 && i < 10 {
 		return fmt.Sprintf("u%c (ops)", 'a'+i)
 	}
 	return fmt.Sprintf("u%c", 'a'+i)
 }
-func c20UserDN(i int) string { return fmt.Sprintf("cn=%s,%s", c20UserCN(i), c20People) }
+func c20UserDN(i int) string {
+	if i == 10 {
+		return fmt.Sprintf("cn=%s, %s", c20UserCN(i), c20People)
+	}
+	return fmt.Sprintf("cn=%s,%s", c20UserCN(i), c20People)
+}
 
 // c20NGroups: four groups below the groups base and one that SetGroups puts elsewhere in the tree (what list an entry
 // is in is decided by the Set* call, not by its DN)
